@@ -341,6 +341,16 @@ var trafficSets = []*ConvSet{
 	// (a datagram every two minutes); it continues in the next capture
 	{Name: "snap-longlived", Huge: true, Step: time.Millisecond, Interleaves: []string{"wrap:4"}, Convs: withFiller(
 		udp("u", "10.0.1.1", 5355, "10.0.1.2", 53, cm("d0"), Msg{S2C, "d1", 2 * time.Minute}, Msg{C2S, "d2", 2 * time.Minute}, Msg{S2C, "d3", 2 * time.Minute}, cm("d4"), sm("d5")))},
+	// the packet that triggers the snapshot (the 100001st of the capture, so the snapshot carries its
+	// timestamp) is the LAST packet of its capture file and the first datagram of the observed flow;
+	// it comes six minutes after everything else, so the snapshot refers to no packet of that file;
+	// the flow continues in the next capture
+	{Name: "snap-boundary-last", Huge: true, Step: time.Millisecond, Interleaves: []string{"mid:0:100000:1"}, Convs: func() []ConvSpec {
+		cs := withFiller(
+			udp("u", "10.0.1.1", 5356, "10.0.1.2", 53, Msg{C2S, "d0", 6 * time.Minute}, sm("d1"), cm("d2"), sm("d3")))
+		// one more single-datagram flow in front of the filler: 1 + 11111*9 = 100000 packets of complete conversations
+		return append(append([]ConvSpec{cs[0]}, udp("v", "10.0.1.3", 5357, "10.0.1.2", 53, cm("pad"))), cs[1:]...)
+	}()},
 	{Name: "snap-udp-mid", Huge: true, Step: time.Millisecond, Interleaves: []string{"wrap:2"}, Convs: withFiller(
 		udp("u", "10.0.1.1", 5353, "10.0.1.2", 53, cm("qry"), sm("answ"), cm("q2"), sm("a2")))},
 }
@@ -1039,6 +1049,10 @@ func SnapshotCuts(set *ConvSet) ([]int, error) {
 	if strings.HasPrefix(set.Interleaves[0], "mid:") {
 		mk, pos, mn := 0, 0, 0
 		fmt.Sscanf(set.Interleaves[0], "mid:%d:%d:%d", &mk, &pos, &mn)
+		if mk == 0 {
+			// two files: the first ends with the packet(s) placed in the middle
+			return []int{pos + mn}, nil
+		}
 		return []int{mk, mk + FillerConns*9 + mn}, nil
 	}
 	if k < 0 {
